@@ -217,7 +217,7 @@ func runC13(c *h.Ctx) {
 // c13Proto: Protobuf -> JSON -> Protobuf (up to reference message equality) and JSON -> Protobuf -> JSON.
 func c13Proto(c *h.Ctx) {
 	c.Run("proto", c.N(5000, 200000), func(cs *h.Case) {
-		sc := gen.GenPSchema(cs.R, gen.PCfg{MaxDepth: 2, MaxFields: 6, Nested: cs.R.Bool(), Enums: true, BigNums: cs.R.Chance(30), JSONNames: cs.R.Bool(), Optionals: cs.R.Bool()})
+		sc := gen.GenPSchema(cs.R, gen.PCfg{Unpacked: true, MaxDepth: 2, MaxFields: 6, Nested: cs.R.Bool(), Enums: true, BigNums: cs.R.Chance(30), JSONNames: cs.R.Bool(), Optionals: cs.R.Bool()})
 		pc, err := PCompile(sc)
 		if err != nil {
 			cs.Cover("oracle_schema_rejected")
